@@ -226,8 +226,43 @@ def _recorded_status(expect_type, entity_param):
     return check
 
 
+def _snapshot_rt_run(ctx):
+    """state.to_dict() is what a snapshot stores; _load_state_from_snapshot must give the state back."""
+    I = ctx.I
+    from pyvc.values import SFunc
+
+    state = T.new_symbolic(I, "WorkflowState", "state")
+    ctx.args["state"] = state
+    for f in ("workflow_id", "status", "application", "name", "start_time", "end_time", "context", "stages", "tasks"):
+        I.obj_getattr(state, f)
+    for f in ("start_time", "end_time"):  # a datetime object is always truthy: its integer encoding is not 0
+        v = I.getattr(state, f)
+        I.st.assume(z3.Or(I.ops.is_none(v), I.ops.as_int(I.ops.strip_opt(v)) != 0))
+    d = I.call(I.getattr(state, "to_dict"), [], {})
+    snap = T.new_model_obj(I, "Snapshot", "snapshot")
+    I.st.objs[snap.oid].fields.update({"entity_id": I.getattr(state, "workflow_id"), "state": d, "sequence": SInt(z3.Int("snapshot_sequence"))})
+    rep = T.new_symbolic(I, "EventReplayer", "replayer")
+    return I.call(I.getattr(rep, "_load_state_from_snapshot"), [snap], {})
+
+
+def _snapshot_rt_post(ctx):
+    I = ctx.I
+    if ctx.exc is not None:
+        return [("no-exception", FALSE)]
+    a, b = ctx.args["state"], ctx.result
+    goals = []
+    for f in ("workflow_id", "status", "application", "name", "start_time", "end_time"):
+        goals.append((f"field.{f}", I.ops.eq(I.getattr(a, f), I.getattr(b, f))))
+    for f in ("context", "stages", "tasks"):
+        goals.append((f"field.{f}", I.ops.to_val(I.getattr(a, f)) == I.ops.to_val(I.getattr(b, f))))
+    return goals
+
+
 def units():
     out = []
+    out.append(Unit(prop="*", name="L3/EventReplayer.snapshot-state-roundtrip", func=R + "._load_state_from_snapshot", params=[],
+                    names=STATUS_NAMES, registry=replay_registry(), replayable=False, run=_snapshot_rt_run,
+                    obligations=[Obl("C12/fold/snapshot-state-roundtrip", _snapshot_rt_post, when="any", scenario="d8_snapshot_drops_times.py")]))
     out.append(Unit(prop="*", name="L3/EventReplayer.rebuild_workflow_state", func=R + ".rebuild_workflow_state",
                     params=[("workflow_id", ("str",)), ("as_of_sequence", ("opt", ("int",)))], self_type=_make_replayer,
                     names=STATUS_NAMES, registry=_rebuild_registry(), replayable=False,
